@@ -21,6 +21,12 @@ var commutativeSinks = map[string]string{
 	"pegnet.SplitTxID":                                                 "pure",
 }
 
+// functions whose map-ordered credits go to addresses that already have a pn_addresses row (so no row is created in
+// map order), each with the reason.
+var creditsExistingRows = map[string]string{
+	"node.Pegnetd.SnapshotPayouts": "the paid addresses are the rows of both staking snapshots, which are copies of pn_addresses: every one already has a row",
+}
+
 // library packages whose calls have no ledger effect and no hidden order dependence.
 var pureLibPrefixes = []string{"fmt.", "strings.", "strconv.", "math/big.", "math.", "encoding/hex.", "encoding/json.", "bytes.", "errors.", "github.com/sirupsen/logrus.", "(*github.com/sirupsen/logrus", "github.com/Factom-Asset-Tokens/factom.", "github.com/pegnet/pegnet/modules/"}
 
@@ -485,6 +491,23 @@ func (o *otaint) analyseLoop(ml *mapLoop, cons string) []taintSrc {
 					continue
 				}
 				if why, ok := commutativeSinks[name]; ok {
+					// the upsert also creates the address row when there is none: creation order fixes the rowid, and the
+					// rowid breaks ties in `ORDER BY peg_balance DESC LIMIT 100` (top-holder test of the SPR grader). Only
+					// credits to an address that already has a row (the debited input address) are free of that.
+					existing := ""
+					for _, on := range c.ownerNames(ml.f) {
+						if why, ok := creditsExistingRows[on]; ok {
+							existing = why
+						}
+					}
+					if existing != "" && name == "pegnet.Pegnet.AddToBalance" {
+						notes = append(notes, "AddToBalance in map order: "+existing)
+						continue
+					}
+					if name == "pegnet.Pegnet.AddToBalance" && len(cc.Args) > 2 && !strings.HasSuffix(typePath(cc.Args[2]), "TypedAddressAmountTuple.Address") {
+						problems = append(problems, fmt.Sprintf("AddToBalance for an address that may be new (%s) inside a map-range loop at %s: rows of pn_addresses are then created in map order, and their rowids decide ties in the top-100 PEG holder query", stablePath(cc.Args[2], 0), c.ipos(ins)))
+						continue
+					}
 					notes = append(notes, fmt.Sprintf("%s: keyed commutative sink (%s)", shortCallee(cc), why))
 					continue
 				}
